@@ -388,6 +388,18 @@ class _Fold(ast.NodeTransformer):
                 return ast.copy_location(ast.Constant(r), n)
         return n
 
+    def visit_Call(self, n):
+        self.generic_visit(n)
+        # getattr(x, "name") is x.name
+        if isinstance(n.func, ast.Name) and n.func.id == "getattr" and len(
+                n.args) == 2 and not n.keywords and isinstance(
+                    n.args[1], ast.Constant) and isinstance(
+                        n.args[1].value, str) and \
+                n.args[1].value.isidentifier():
+            return ast.copy_location(ast.Attribute(
+                n.args[0], n.args[1].value, ast.Load()), n)
+        return n
+
     def visit_IfExp(self, n):
         self.generic_visit(n)
         if isinstance(n.test, ast.Constant):
